@@ -269,7 +269,7 @@ def run(ctx, report):
     for st in ac.body:
         if isinstance(st, ast.Assign) and u(st.targets[0]) == 'can_be_16_32':
             break
-        if isinstance(st, ast.If) and 'args_eval' in u(st.test) and 'candidate' in u(st) and any(isinstance(x, ast.Assign) and u(x.targets[0]).startswith('args_eval[') for x in ast.walk(st)):
+        if isinstance(st, ast.If) and 'args_eval' in u(st.test) and 'candidate' in u(st) and any(isinstance(x, ast.Assign) and isinstance(x.targets[0], ast.Subscript) for x in ast.walk(st)):
             pre9.append(st)
     rows_by_name = {}
     seen_rv = set()
